@@ -365,6 +365,38 @@ struct VT
     static int norm(int x) { return x; }
     static constexpr bool tracked = false;
 };
+// unsigned integers wider than a byte hold the model value replicated into every byte (7 -> 0x07070707): a copy that
+// stops short, starts late or is shifted by a byte leaves a value whose bytes disagree and reads as -8. (Count fields
+// of VaryingSize parameters do not go through VT, they hold the plain count.)
+template <class U>
+struct VTRep
+{
+    static constexpr U ONES = static_cast<U>(~static_cast<U>(0)) / 0xFF;  // 0x0101...01
+    static U make(int x) { return static_cast<U>(static_cast<U>(x & 0xFF) * ONES); }
+    static int read(const U& v)
+    {
+        const U low = static_cast<U>(v & 0xFF);
+        return v == static_cast<U>(low * ONES) ? static_cast<int>(low) : -8;
+    }
+    static int norm(int x) { return x & 0xFF; }
+    static constexpr bool tracked = false;
+};
+template <>
+struct VT<u16> : VTRep<u16>
+{
+};
+template <>
+struct VT<u32> : VTRep<u32>
+{
+};
+template <>
+struct VT<unsigned long> : VTRep<unsigned long>
+{
+};
+template <>
+struct VT<unsigned long long> : VTRep<unsigned long long>
+{
+};
 template <>
 struct VT<Big32>
 {
